@@ -56,6 +56,7 @@ def _case(draw):
         c["features"] = draw(st.sampled_from([1, 1, 2, 3, 3]))
         c["random_mask"] = draw(st.booleans())
         c["blocks"] = draw(st.integers(1, 2))
+        c["dropout"] = draw(st.sampled_from([0.0, 0.0, 0.3]))       # must be inert in evaluation mode
         c["components"] = draw(st.integers(1, 4))
         c["ctx"] = draw(st.sampled_from([None, 2]))
         c["res"] = draw(st.booleans())
@@ -279,7 +280,8 @@ def run_case(case):
             F_, C_ = case["features"], case["components"]
             rm_ = bool(case.get("random_mask", False))
             d = dist.MADEMoG(F_, 8, case["ctx"], num_blocks=case.get("blocks", 1), num_mixture_components=C_,
-                             use_residual_blocks=case["res"] and not rm_, random_mask=rm_, custom_initialization=case["custom_init"])
+                             use_residual_blocks=case["res"] and not rm_, random_mask=rm_, custom_initialization=case["custom_init"],
+                             dropout_probability=case.get("dropout", 0.0))
             if case["perturb"]:
                 with torch.no_grad():
                     for p in d.parameters():
@@ -311,6 +313,17 @@ def run_case(case):
                 w = t2n(torch.softmax(out[0, 0, :, 0], -1))
                 return mu, sd, w
             mu, sd, w = first_params(ctx[r:r + 1] if ctx is not None else None)
+            if case.get("dropout"):
+                # one density: evaluating the same points twice (different RNG states) must give the same values in evaluation mode
+                zz = np.random.RandomState(case["seed"] % 2 ** 31).randn(16, F_)
+                torch.manual_seed(1)
+                a_ = logp(zz)
+                torch.manual_seed(2)
+                b_ = logp(zz)
+                if not np.array_equal(a_, b_):
+                    res.fail("density_not_a_function", site, "log_prob of the same points differs between two evaluations in evaluation mode "
+                             "(max %g; dropout_probability=%g)" % (float(np.abs(a_ - b_).max()), case["dropout"]))
+                    return res
             if what == "mean":
                 try:
                     d.mean(ctx)
